@@ -169,6 +169,19 @@ class Obj:
         return "Obj(" + ", ".join(f"{k}={v!r}" for k, v in self.__dict__.items()) + ")"
 
 
+class Rec(Obj):
+    """A record with value equality (stands for a dataclass of /repo: two records with equal fields are equal)."""
+
+    def _key(self):
+        return tuple(sorted((k, repr(v)) for k, v in self.__dict__.items() if not callable(v)))
+
+    def __eq__(self, other):
+        return isinstance(other, Rec) and self._key() == other._key()
+
+    def __hash__(self):
+        return hash(self._key())
+
+
 class Evaluator:
     def __init__(self, env: Optional[Dict[str, Any]] = None, funcs: Optional[Dict[str, Callable]] = None,
                  consts: Optional[Dict[str, Any]] = None, defs: Optional[Dict[str, ast.AST]] = None,
